@@ -640,6 +640,115 @@ func init() {
 				},
 			},
 			{
+				// long thin axis-parallel rectangles at deep zooms: thousands of tile rows (or columns) and 3..6 across; the
+				// image of such a rectangle is a rectangle of tiles, so the cover must be exactly that block. Plus
+				// collections of 2..23 small members: the cover is the union of the members' covers
+				Name: "strips-and-many-members", Count: h.Fixed(48, 4000), BudgetSec: 60,
+				Run: func(c *h.Ctx, idx uint64, r *h.Rand) {
+					zc := r.Range(18, 22)
+					zoom := maptile.Zoom(zc)
+					long := 1<<uint(31-zc) + r.Range(5, 120)
+					if r.P(1, 3) {
+						long = r.Range(300, 3000)
+					}
+					short := r.Range(3, 6)
+					m := 1 << uint(zc)
+					nx, ny := short, long
+					if idx%2 == 1 {
+						nx, ny = long, short
+					}
+					x0, y0 := r.Intn(m-nx-2)+1, r.Intn(m-ny-2)+1
+					// corners strictly inside the first and last tiles of the block
+					lo := maptile.Tile{X: uint32(x0), Y: uint32(y0 + ny - 1), Z: zoom}.Bound()
+					hi := maptile.Tile{X: uint32(x0 + nx - 1), Y: uint32(y0), Z: zoom}.Bound()
+					fx0, fy0 := r.Uniform(0.1, 0.9), r.Uniform(0.1, 0.9)
+					fx1, fy1 := r.Uniform(0.1, 0.9), r.Uniform(0.1, 0.9)
+					minx, miny := lo.Min[0]+fx0*(lo.Max[0]-lo.Min[0]), lo.Min[1]+fy0*(lo.Max[1]-lo.Min[1])
+					maxx, maxy := hi.Min[0]+fx1*(hi.Max[0]-hi.Min[0]), hi.Min[1]+fy1*(hi.Max[1]-hi.Min[1])
+					if maxy > 84 || miny < -84 {
+						return // (the property's domain ends at 85 degrees)
+					}
+					ring := orb.Ring{{minx, miny}, {maxx, miny}, {maxx, maxy}, {minx, maxy}, {minx, miny}}
+					if r.Bool() {
+						ring.Reverse()
+					}
+					d := map[string]interface{}{"zoom": zc, "ring": sv(ring), "tile_block": []int{x0, y0, nx, ny}}
+					// the corners must really be where intended (float round trip of the tile bound)
+					if a, b := maptile.At(orb.Point{minx, miny}, zoom), maptile.At(orb.Point{maxx, maxy}, zoom); int(a.X) != x0 || int(a.Y) != y0+ny-1 || int(b.X) != x0+nx-1 || int(b.Y) != y0 {
+						return
+					}
+					for name, g := range map[string]orb.Geometry{"polygon": orb.Polygon{ring}, "bound": orb.Bound{Min: orb.Point{minx, miny}, Max: orb.Point{maxx, maxy}}} {
+						cov, err := tilecover.Geometry(g, zoom)
+						c.Eval()
+						if err != nil {
+							c.Fail("", "tilecover.Geometry failed on a long thin rectangle ("+name+")", map[string]interface{}{"case": d, "err": err.Error()})
+							continue
+						}
+						cov = trueTiles(cov)
+						missing, extra := 0, 0
+						var firstMissing maptile.Tile
+						for x := x0; x < x0+nx; x++ {
+							for y := y0; y < y0+ny; y++ {
+								t := maptile.Tile{X: uint32(x), Y: uint32(y), Z: zoom}
+								if !cov[t] {
+									if missing == 0 {
+										firstMissing = t
+									}
+									missing++
+								}
+							}
+						}
+						for t := range cov {
+							if t.Z != zoom || int(t.X) < x0 || int(t.X) >= x0+nx || int(t.Y) < y0 || int(t.Y) >= y0+ny {
+								extra++
+							}
+						}
+						if missing > 0 || extra > 0 {
+							c.Fail("", "the cover of a long thin rectangle ("+name+") is not exactly its block of tiles", map[string]interface{}{"case": d, "missing_tiles": missing, "first_missing": sv(firstMissing), "tiles_outside_the_block": extra})
+						}
+					}
+					c.Max("tile rows or columns in one polygon", float64(long), nil)
+					// many small members
+					k := []int{2, 3, 5, 6, 7, 9, 11, 13, 17, 23}[r.Intn(10)]
+					z2 := maptile.Zoom(r.Range(6, 14))
+					var coll orb.Collection
+					union := maptile.Set{}
+					bad := false
+					for i := 0; i < k; i++ {
+						a := orb.Point{r.Uniform(-170, 170), r.Uniform(-80, 80)}
+						var mg orb.Geometry
+						switch r.Intn(3) {
+						case 0:
+							mg = a
+						case 1:
+							mg = orb.LineString{a, {a[0] + r.Uniform(-0.5, 0.5), a[1] + r.Uniform(-0.5, 0.5)}, {a[0] + r.Uniform(-0.5, 0.5), a[1] + r.Uniform(-0.5, 0.5)}}
+						default:
+							w := r.Uniform(0.01, 0.3)
+							mg = orb.Polygon{{a, {a[0] + w, a[1]}, {a[0] + w, a[1] + w}, {a[0], a[1] + w}, a}}
+						}
+						coll = append(coll, mg)
+						mc, err := tilecover.Geometry(orb.Clone(mg), z2)
+						if err != nil {
+							bad = true
+							break
+						}
+						for t := range trueTiles(mc) {
+							union[t] = true
+						}
+					}
+					if !bad {
+						cc, err := tilecover.Geometry(coll, z2)
+						c.Eval()
+						if err != nil || !sameSet(trueTiles(cc), union) {
+							c.Fail("", "the cover of a collection is not the union of its members' covers", map[string]interface{}{"members": k, "zoom": z2, "collection": sv(coll), "err": sv(err), "cover_tiles": len(trueTiles(cc)), "union_tiles": len(union)})
+						}
+						c.Max("members in one collection given to tilecover", float64(k), nil)
+					}
+					c.Nontrivial(h.Mix(uint64(zc), uint64(x0), uint64(y0), uint64(long), uint64(k)))
+					c.Sample(d)
+				},
+			},
+			{
 				// covers of thousands of tiles (size-dependent paths), judged without expanding: every input tile has exactly
 				// one ancestor-or-self in the output, and the output's area (sum of 4^(zoom - z)) equals the number of input tiles
 				Name: "merge-up-large", Count: h.Fixed(60, 6000), BudgetSec: 60,
